@@ -2,7 +2,7 @@
    Model: Sizes.init_size / best_sizes (both search loops of set_best_sizes on explicit fuel,
    exact dyadic inputs). *)
 From Coq Require Import ZArith List Bool.
-From FxpVerif Require Import Spec NP Store ProofsCore Sizes ProofsSizes.
+From FxpVerif Require Import Spec NP Store ProofsCore Sizes ProofsSizes ProofsSizes2.
 Import ListNotations.
 Open Scope Z_scope.
 
@@ -35,8 +35,36 @@ Theorem C06_min_frac_bits : forall max_n v, de v < 0 -> - de v <= max_n -> - de 
 Proof. exact frac_bits_min. Qed.
 Print Assumptions C06_min_frac_bits.
 
-(* PARTIAL: the combination step of best_sizes (maximum over the elements, the n_word / n_frac
-   reconciliation with the cap) is modelled and compared on every case, not stated as a theorem. *)
+(* the combination step of set_best_sizes when both sizes are inferred and the cap is not reached (w < n_word_max), for arrays of
+   ANY length whose elements are dyadics in any representation m * 2^e:
+   - the inferred fraction length f is non-negative, EVERY element is a multiple of 2^-f, and no smaller j works for all of them;
+   - the integer length w - sign - f is non-negative, the exact code int(v * 2^f) of every element fits in it (so nothing
+     overflows and nothing is rounded), and when it is positive one bit fewer would not hold some element.
+   [is_mult v n]: v is a multiple of 2^-n; [scaled_trunc v f] is the code the implementation computes, which is exact for
+   multiples (C06_code_is_exact). *)
+Theorem C06_best_sizes_minimal : forall (signed : bool) wmax vals w f,
+  let sign := if signed then 1 else 0 in
+  vals <> [] -> Forall (fun v => - de v <= wmax - sign /\ - de v <= 198) vals ->
+  best_sizes signed None None wmax vals = Ok (w, f) -> w < wmax ->
+  0 <= f /\ Forall (fun v => is_mult v f) vals /\
+  (forall j, 0 <= j < f -> exists v, In v vals /\ ~ is_mult v j) /\
+  f <= w - sign /\
+  Forall (fun v => - 2^(w - sign) <= scaled_trunc v f < 2^(w - sign)) vals /\
+  (f < w - sign -> exists v, In v vals /\ ~ (- 2^(w - sign - 1) <= scaled_trunc v f < 2^(w - sign - 1))).
+Proof. exact best_sizes_minimal. Qed.
+Print Assumptions C06_best_sizes_minimal.
+(* for a multiple of 2^-n the truncated scaled value is the exact code: v = code * 2^-n (both sides scaled to a common exponent E) *)
+Theorem C06_code_is_exact : forall v n E, is_mult v n -> E <= de v -> E <= - n ->
+  dm v * 2^(de v - E) = scaled_trunc v n * 2^(- n - E).
+Proof. exact code_sc. Qed.
+Print Assumptions C06_code_is_exact.
+(* PARTIAL: the reconciliation with the 64-bit cap (fraction length shortened, value quantized and flagged inexact) and the cases
+   with one size given are modelled and compared on every case, not stated as theorems. *)
+Example C06_minimal_example :
+  best_sizes true None None 64 [ {| dm := -5; de := -3 |}; {| dm := 3; de := 0 |}; {| dm := 1; de := -1 |} ] = Ok (6, 3) /\
+  is_mult {| dm := -5; de := -3 |} 3 /\ ~ is_mult {| dm := -5; de := -3 |} 2.
+Proof. split; [vm_compute; reflexivity|]. unfold is_mult. cbn. split; [exact I|]. vm_compute. discriminate. Qed.
+
 Example C06_nonvacuous :
   init_size None None None None 64 (Some [ {| dm := -5; de := -3 |}; {| dm := 3; de := 0 |} ]) = Ok (true, 6, 3) /\
   init_size (Some false) (Some 8) None None 64 (Some [ {| dm := 5; de := -1 |} ]) = Ok (false, 8, 1) /\
